@@ -42,7 +42,11 @@ def linear_spline(
     Reference:
     > Müller et al., Neural Importance Sampling, arXiv:1808.03856, 2018.
     """
-    if torch.min(inputs) < left or torch.max(inputs) > right:
+    if inverse:
+        lower, upper = bottom, top
+    else:
+        lower, upper = left, right
+    if torch.min(inputs) < lower or torch.max(inputs) > upper:
         raise InputOutsideDomain()
 
     if inverse:
